@@ -7,7 +7,7 @@ if [ -n "$(git -C /repo status --porcelain)" ]; then echo "REFUSING: /repo has u
 for id in ${@:-$(ls seeded)}; do
   d=seeded/$id; prop=${id:0:3}
   [ -f $d/patch.diff ] || continue
-  if ! git -C /repo apply $d/patch.diff 2>/dev/null; then echo "$id NOAPPLY"; echo "patch does not apply to /repo HEAD" > $d/detection.txt; continue; fi
+  if ! git -C /repo apply /verif/$d/patch.diff 2>/dev/null; then echo "$id NOAPPLY"; echo "patch does not apply to /repo HEAD" > $d/detection.txt; continue; fi
   level=$(python3 -c "import json,sys;print(next((c['level_claimed']['category'] for c in json.load(open('MANIFEST.json'))['checks'] if c['property_id']==sys.argv[1]),'proof'))" $prop)
   out=$(bin/govc verify -prop $prop -level $level -replays /root/scratch/replays 2>&1)
   git -C /repo checkout -- . ; git -C /repo clean -fdq
